@@ -34,6 +34,19 @@ pub mod hex {
     }
 }
 
+pub mod hexvec {
+    use serde::{Deserialize, Deserializer, Serialize, Serializer};
+
+    pub fn serialize<S: Serializer>(b: &Vec<Vec<u8>>, s: S) -> Result<S::Ok, S::Error> {
+        let v: Vec<String> = b.iter().map(|x| super::hex::enc(x)).collect();
+        v.serialize(s)
+    }
+    pub fn deserialize<'de, D: Deserializer<'de>>(d: D) -> Result<Vec<Vec<u8>>, D::Error> {
+        let v = Vec::<String>::deserialize(d)?;
+        v.iter().map(|s| super::hex::dec(s).map_err(serde::de::Error::custom)).collect()
+    }
+}
+
 #[derive(Serialize, Deserialize, Clone, Copy, Debug, PartialEq, Eq, PartialOrd, Ord)]
 pub enum Imp {
     Blocking,
